@@ -17,8 +17,8 @@ def shard(seed, idx, n, tier):
     old = cr.TAMPERS
     cr.TAMPERS = [None, None, None, "rewrite", "excluded"]
     try:
-        for _ in range(n):
-            c04.one_case(rng, res, check_c11=True)
+        for j in range(n):
+            c04.one_case(rng, res, check_c11=True, case_no=idx * n + j)
     finally:
         cr.TAMPERS = old
     # the command line is the library with another way of passing arguments (harness/cliequiv.py)
